@@ -9,13 +9,15 @@ CONSTANTS TIER, SEEDS, SEED
 VARIABLES mode, x
 vars == <<mode, x>>
 
-LexPrefixPool == {RE.prefix[k] : k \in AtomKinds} \cup {"@@"}
+\* unknown symbols incl. long ones of mixed character width (error messages that slice bytes)
+LongMixed == "x" \o Rep("外交", 7)
+LexPrefixPool == {RE.prefix[k] : k \in AtomKinds} \cup {"@@", LongMixed}
 AtomsL == {LAtom(p, n) : p \in LexPrefixPool, n \in {"a", "", "7", "18446744073709551616", "x-y"}}
 Kids == {LAtom("", "a"), LAtom(RE.prefix["Placeholder"], ""), LAtom(RE.prefix["VariableIndependent"], "x"), LAtom("@@", "u")}
 Lists == UNION {[1..m -> Kids] : m \in 0..3}
-Conns == {RE.conn[k] : k \in ConnKinds} \cup {"??"}
-Cops == {RE.cop[k] : k \in CopKinds} \cup {"??", ""}
-Brs == {<<RE.se_l, RE.se_r>>, <<RE.si_l, RE.si_r>>, <<RE.se_l, RE.si_r>>, <<"(|", "|)">>}
+Conns == {RE.conn[k] : k \in ConnKinds} \cup {"??", LongMixed}
+Cops == {RE.cop[k] : k \in CopKinds} \cup {"??", "", LongMixed}
+Brs == {<<RE.se_l, RE.se_r>>, <<RE.si_l, RE.si_r>>, <<RE.se_l, RE.si_r>>, <<"(|", "|)">>, <<LongMixed, "é" \o LongMixed>>}
 Flat == AtomsL
         \cup {LCompound(c, ts) : c \in Conns, ts \in Lists}
         \cup {LSet(b[1], b[2], ts) : b \in Brs, ts \in Lists}
